@@ -178,8 +178,8 @@ func RunC13(env *Env, rep *Report) {
 	for _, s := range c13Sites() {
 		siteNames = append(siteNames, s.name)
 		for _, dk := range []string{"one-single", "one-multi", "chain"} {
-			if s.name == "mart-item" && dk != "one-single" && env.Tier != "thorough" {
-				continue
+			if s.name == "mart-item" && dk != "one-single" {
+				continue // a multi-token value cannot be written out as a mart item
 			}
 			cases = append(cases, c13Case(s, dk))
 		}
